@@ -332,6 +332,27 @@ check("history statement", (c08.SEQ_POS["selv"](b.ph(1)), b.params()), ("select 
 check("_stored ok", c08._stored({"insv": (("ok", [(1,)]), [(1, "true")])}), ("true",))
 check("_stored failed insert", c08._stored({"insv": (("err", "E", "m"), [])}), None)
 
+# ---- 12. session-variable histories: model and enumeration ------------------------------------------------------------------
+check("var N_sel", c08.var_expected("N_sel", "50%", "p"), ([("50%",)], ("str",), []))
+check("var P_sel", c08.var_expected("P_sel", "%s", 7), ([("%s", 7)], ("str", "int"), []))
+check("var P_sel number variable", c08.var_expected("P_sel", 5, None), ([(5, None)], ("int", "str"), []))
+check("var P_ins", c08.var_expected("P_ins", "it's", 7), ([(1,)], ("exact",), [("it's", "7")]))
+check("var P_ins NULL parameter", c08.var_expected("P_ins", 5, None), ([(1,)], ("exact",), [("5", None)]))
+check("var N_ins", c08.var_expected("N_ins", "?", "ignored"), ([(1,)], ("exact",), [("?", "lit")]))
+b = c08.Binder("pyformat_dict")
+check("var statement dict", (c08.VSTMT["P_sel"](b, "x"), b.params()), ("select $v as x, %(p)s as y", {"p": "x"}))
+b = c08.Binder("qmark")
+check("var statement qmark", (c08.VSTMT["P_ins"](b, 7), b.params()), ("insert into tp (a, b) values ($v, ?)", (7,)))
+check("var histories quick = all ordered pairs of 3 kinds", sorted(c08.var_histories("quick")), sorted((a, b) for a in c08.VSTMT_QUICK for b in c08.VSTMT_QUICK))  # fmt: skip
+check("var histories thorough", len(c08.var_histories("thorough")), 16 + 27)
+vals = [v for _, v in c08.VARVALS]
+check("variable values unique", len(vals), len(set(map(repr, vals))))
+for needed in ("%", "%%", "%s", "%(x)s", "%(p)s", "?", ":1", "it's", "a\\b", "$x"):
+    check(f"variable alphabet holds {needed!r}", needed in vals, True)
+check("the dict key used by the statements is itself a variable value", c08.VSTMT["P_sel"](c08.Binder("pyformat_dict"), 1).count("%(p)s"), 1)
+check("quick parameters are a subset", set(map(repr, c08.VAR_PARAMS_QUICK)) <= set(map(repr, c08.VAR_PARAMS)), True)
+check("SET text of a variable value", [L.render(v) for v in ("it's", "a\\b", 5)], ["'it''s'", "'a\\\\b'", "5"])
+
 if FAILS:
     print(f"test_c08: {len(FAILS)} of {N[0]} checks FAILED")
     for f in FAILS[:40]:
